@@ -15,6 +15,7 @@ package mutation
 //@   ensures result1 == nil ==> result0 != nil
 
 //@ func Mutator.MutateParallelismSpec
+//@   params m, spec, fldPath
 //@   tags C16
 //@   requires spec != nil
 //@   modifies spec.CompletionStrategy
@@ -22,6 +23,7 @@ package mutation
 //@   ensures [C16] no-errors: result != nil && len(result.Errors) == 0
 
 //@ func Mutator.MutatePodTemplateSpec
+//@   params m, spec, fldPath
 //@   tags C16
 //@   requires spec != nil
 //@   modifies spec.Spec.RestartPolicy
@@ -30,6 +32,7 @@ package mutation
 
 // lastUpdated is stamped exactly when a schedule exists at creation, unless a later time was supplied (C03, C16)
 //@ func Mutator.MutateCreateJobConfig
+//@   params m, rjc
 //@   tags C03, C16
 //@   requires rjc != nil
 //@   modifies clock, rjc.Spec.Schedule.LastUpdated
@@ -40,6 +43,7 @@ package mutation
 //@   ensures [C16] no-schedule-untouched: rjc.Spec.Schedule == old(rjc.Spec.Schedule) && clock >= old(clock)
 
 //@ func Mutator.MutateTaskTemplate
+//@   params m, spec, fldPath
 //@   tags C16
 //@   requires spec != nil
 //@   modifies heap(v1alpha1.PodTemplateSpec)
@@ -47,6 +51,7 @@ package mutation
 //@   ensures [C16] pod-kept: spec.Pod == old(spec.Pod)
 
 //@ func Mutator.MutateJobTemplateSpec
+//@   params m, spec, mutateTaskTemplate, fldPath
 //@   tags C16
 //@   requires m != nil && spec != nil
 //@   modifies spec.MaxAttempts, spec.TaskPendingTimeoutSeconds, heap(v1alpha1.ParallelismSpec), heap(v1alpha1.PodTemplateSpec)
@@ -58,6 +63,7 @@ package mutation
 //@   ensures [C16] structure-kept: spec.Parallelism == old(spec.Parallelism) && spec.TaskTemplate.Pod == old(spec.TaskTemplate.Pod)
 
 //@ func Mutator.MutateJob
+//@   params m, rj
 //@   tags C16
 //@   requires m != nil && rj != nil
 //@   modifies rj.Spec.Type, rj.Spec.TTLSecondsAfterFinished, rj.Spec.Template, heap(v1alpha1.JobTemplate), heap(v1alpha1.ParallelismSpec), heap(v1alpha1.PodTemplateSpec)
@@ -74,6 +80,7 @@ package mutation
 // configName expansion (C16): the Job receives the JobConfig's template, an owner reference and UID label for that JobConfig,
 // the JobConfig's concurrency policy unless one was given (other start-policy fields are kept), and configName is cleared
 //@ func Mutator.evaluateConfigName
+//@   params m, rj, rjcName, fldPath
 //@   tags C16, C07
 //@   requires m != nil && rj != nil
 //@   modifies clock, rj.Labels, rj.Annotations, rj.Finalizers, rj.OwnerReferences, rj.Spec.Template, rj.Spec.StartPolicy, rj.Spec.ConfigName, heap(v1alpha1.StartPolicySpec), maps(string, string)
@@ -99,6 +106,7 @@ package mutation
 //@   params spec
 
 //@ func Mutator.evaluateOptionValues
+//@   params m, rj, rjc, fldPath
 //@   tags C18
 //@   requires rj != nil
 //@   assumes decoded-object-maps-are-distinct: rj.Spec.Substitutions == nil || rj.Annotations != rj.Spec.Substitutions
@@ -116,6 +124,7 @@ package mutation
 // the cron scheduler re-bases a JobConfig at that stamp; C16). "Changed" is Semantic.DeepEqual of the old schedule and the new
 // one with the old stamp (semEq, an ASSUMED equivalence).
 //@ func Mutator.MutateUpdateJobConfig
+//@   params m, oldRjc, rjc
 //@   tags C03, C16
 //@   requires oldRjc != nil && rjc != nil
 //@   modifies clock, rjc.Spec.Schedule.LastUpdated
